@@ -107,7 +107,7 @@ theorem buildTable_regenerated (h : Gen.Code.buildTable_extracted = true) (data 
     | exact absurd h (by decide)
     | (unfold Gen.Code.buildTable
        simp only [blockAppend_regenerated cx (by decide), alignLineLeft_regenerated cx (by decide),
-         alignLineCenter_regenerated cx (by decide)]
+         alignLineCenter_regenerated cx (by decide), blockNew_regenerated cx (by decide)]
        go_norm
        -- the horizontal bar
        have hHorz : ∀ (bar0 : List α),
@@ -228,7 +228,8 @@ theorem makeTable_regenerated (h : Gen.Code.makeTable_extracted = true) (data : 
     | exact absurd h (by decide)
     | (rw [makeTable_eq]
        unfold Gen.Code.makeTable
-       simp only [parseTableCharSet_regenerated cx (by decide), buildTable_regenerated cx (by decide)]
+       simp only [parseTableCharSet_regenerated cx (by decide), buildTable_regenerated cx (by decide),
+         blockNew_regenerated cx (by decide)]
        go_norm
        by_cases hd : data = []
        · simp [hd, Block.new]
